@@ -142,6 +142,16 @@ Theorem C13_fault_outcome :
          end).
 Proof. exact fault_outcome. Qed.
 
+(* free() during which the controller's sdram_free raises: the block is still allocated, so nothing
+   changes -- the views stay usable (no view becomes dead), free() can be retried -- and the exception
+   comes out (Failed 2; Failed 0 if the allocation had been freed before). *)
+Theorem C13_failed_free_leaves_state :
+  forall st st' out,
+    step st OFreeFault = (st', out) ->
+    st' = st /\ o_calls out = []
+    /\ (o_res out = Failed 2 \/ o_res out = Failed 0 \/ o_res out = OtherError).
+Proof. exact free_fault_step. Qed.
+
 (* ---- A slice covers exactly the clipped sub-range it names ------------------------------------ *)
 
 (* view[a:b] (a, b absent, negative, beyond the end or reversed) of a view of n bytes: a new open view
